@@ -764,6 +764,10 @@ struct Replayer {
     metrics: &'static crate::Metrics,
 }
 
+/// What a crash between writing the temp file and renaming it leaves behind: a complete prepared
+/// state (the longest content the relayer writes), followed by a newline.
+const LEFTOVER_TEMP: &str = "{\n  \"state\": \"prepared\",\n  \"sequencer_height\": 4000000000,\n  \"last_submission\": {\n    \"celestia_height\": 4000000000,\n    \"sequencer_height\": 3999999999\n  },\n  \"blob_tx_hash\": \"abababababababababababababababababababababababababababababababab\",\n  \"at\": \"2024-06-24T22:22:22.222222222Z\"\n}\n";
+
 fn temp_path_of(p: &PathBuf) -> PathBuf {
     // mirrors SubmissionStateAtStartup::new_from_path
     match p.extension().and_then(|e| e.to_str()) {
@@ -887,8 +891,9 @@ impl Replayer {
             }
             wlog(&world, format!("session {sessions} stopped: crash={crash} blocked={blocked:?}"));
             if crash {
-                // a crash during State::write leaves a partially written temp file behind
-                std::fs::write(temp_path_of(&state_path), "{\"state\": \"prepa").unwrap();
+                // a crash inside State::write (after the temp file was written, before the rename)
+                // leaves a complete temp file behind, longer than anything written next
+                std::fs::write(temp_path_of(&state_path), LEFTOVER_TEMP).unwrap();
                 continue;
             }
             if let Some(p) = blocked {
@@ -1309,7 +1314,8 @@ fn statefile_child(dir: &PathBuf) {
 enum FsOp {
     /// open with O_TRUNC (and / or creation of a missing file)
     Truncate(String),
-    Write(String, Vec<u8>),
+    /// write of `data` at byte `offset` of the file (files opened without O_TRUNC keep their tail)
+    Write(String, usize, Vec<u8>),
     Rename(String, String),
     Unlink(String),
     Marker,
@@ -1390,6 +1396,7 @@ fn parse_strace(log: &str, dir: &str, initial: &BTreeMap<String, Vec<u8>>) -> Re
     }
     let mut fds: HashMap<i64, (String, bool)> = HashMap::new(); // fd -> (path, is marker)
     let mut read_fds: HashMap<i64, String> = HashMap::new();
+    let mut offsets: HashMap<i64, usize> = HashMap::new();
     let mut shadow: BTreeMap<String, Vec<u8>> = initial.clone(); // file contents so far, for kernel-side copies
     let mut ops: Vec<FsOp> = Vec::new();
     let under = |p: &str| p.starts_with(dir);
@@ -1417,15 +1424,14 @@ fn parse_strace(log: &str, dir: &str, initial: &BTreeMap<String, Vec<u8>>) -> Re
                 }
                 let is_marker = path.ends_with("/marker");
                 let writable = flags.contains("O_WRONLY") || flags.contains("O_RDWR");
-                if writable && !is_marker && (flags.contains("O_TRUNC") || flags.contains("O_CREAT")) {
-                    if !flags.contains("O_TRUNC") {
-                        return Err(format!("state file opened for writing without truncation: {l}"));
-                    }
+                if writable && !is_marker && flags.contains("O_APPEND") {
+                    return Err(format!("unmodelled append-mode open of the state file: {l}"));
+                }
+                if writable && !is_marker && flags.contains("O_TRUNC") {
                     ops.push(FsOp::Truncate(path.clone()));
-                } else if writable && !is_marker {
-                    return Err(format!("unmodelled writable open: {l}"));
                 }
                 if writable {
+                    offsets.insert(ret, 0usize);
                     fds.insert(ret, (path, is_marker));
                 } else {
                     read_fds.insert(ret, path);
@@ -1449,13 +1455,14 @@ fn parse_strace(log: &str, dir: &str, initial: &BTreeMap<String, Vec<u8>>) -> Re
                 let Some(src_path) = read_fds.get(&src_fd).cloned() else {
                     return Err(format!("kernel-side copy into the state file from an unknown source: {l}"));
                 };
-                let already = shadow.get(&dst_path).map_or(0, Vec::len);
+                let already = offsets.get(&dst_fd).copied().unwrap_or(0);
                 let content = shadow.get(&src_path).cloned().unwrap_or_default();
                 let n = usize::try_from(ret).unwrap();
                 if already + n > content.len() {
                     return Err(format!("kernel-side copy not understood: {l}"));
                 }
-                ops.push(FsOp::Write(dst_path, content[already..already + n].to_vec()));
+                ops.push(FsOp::Write(dst_path, already, content[already..already + n].to_vec()));
+                offsets.insert(dst_fd, already + n);
             }
             "write" | "pwrite64" | "writev" => {
                 let Some(fd) = a.first().and_then(|x| x.parse::<i64>().ok()) else { continue };
@@ -1471,7 +1478,10 @@ fn parse_strace(log: &str, dir: &str, initial: &BTreeMap<String, Vec<u8>>) -> Re
                 if ret < 0 {
                     continue;
                 }
-                ops.push(FsOp::Write(path, data[..usize::try_from(ret).unwrap().min(data.len())].to_vec()));
+                let n = usize::try_from(ret).unwrap().min(data.len());
+                let at = offsets.get(&fd).copied().unwrap_or(0);
+                ops.push(FsOp::Write(path, at, data[..n].to_vec()));
+                offsets.insert(fd, at + n);
             }
             "rename" => {
                 if ret == 0 && (under(&text(0)) || under(&text(1))) {
@@ -1508,12 +1518,19 @@ fn parse_strace(log: &str, dir: &str, initial: &BTreeMap<String, Vec<u8>>) -> Re
     Ok(ops)
 }
 
+fn write_at(file: &mut Vec<u8>, at: usize, data: &[u8]) {
+    if file.len() < at + data.len() {
+        file.resize(at + data.len(), 0);
+    }
+    file[at..at + data.len()].copy_from_slice(data);
+}
+
 fn apply_op(files: &mut BTreeMap<String, Vec<u8>>, op: &FsOp) {
     match op {
         FsOp::Truncate(p) => {
             files.insert(p.clone(), Vec::new());
         }
-        FsOp::Write(p, data) => files.entry(p.clone()).or_default().extend_from_slice(data),
+        FsOp::Write(p, at, data) => write_at(files.entry(p.clone()).or_default(), *at, data),
         FsOp::Rename(a, b) => {
             if let Some(v) = files.remove(a) {
                 files.insert(b.clone(), v);
@@ -1535,6 +1552,8 @@ fn statefile_traced(rep: &mut Report) {
     let state_path = dir.path().join("state.json");
     let fresh = "{\"state\": \"fresh\"}";
     std::fs::write(&state_path, fresh).unwrap();
+    // the directory starts as a crash left it: a complete, longer temp file next to the state file
+    std::fs::write(temp_path_of(&state_path), LEFTOVER_TEMP).unwrap();
     let log_path = dir.path().join("strace.log");
     let exe = std::env::current_exe().unwrap();
     let status = std::process::Command::new("strace")
@@ -1569,7 +1588,12 @@ fn statefile_traced(rep: &mut Report) {
         }
     }
     let log = std::fs::read_to_string(&log_path).unwrap_or_default();
-    let initial: BTreeMap<String, Vec<u8>> = [(format!("{dir_s}/state.json"), fresh.as_bytes().to_vec())].into_iter().collect();
+    let initial: BTreeMap<String, Vec<u8>> = [
+        (format!("{dir_s}/state.json"), fresh.as_bytes().to_vec()),
+        (format!("{dir_s}/state.json.tmp"), LEFTOVER_TEMP.as_bytes().to_vec()),
+    ]
+    .into_iter()
+    .collect();
     let ops = match parse_strace(&log, &dir_s, &initial) {
         Ok(o) => o,
         Err(e) => {
@@ -1601,15 +1625,19 @@ fn statefile_traced(rep: &mut Report) {
             .map_err(|e| format!("{e:#}").replace(&here, "<DIR>"))
     };
     // pass 1: the state at every marker (no crash)
-    let mut files: BTreeMap<String, Vec<u8>> = BTreeMap::new();
-    files.insert(format!("{dir_s}/state.json"), fresh.as_bytes().to_vec());
+    let mut files: BTreeMap<String, Vec<u8>> = initial.clone();
     let mut at_marker: Vec<String> = Vec::new();
     for op in &ops {
         if matches!(op, FsOp::Marker) {
             match observe(&files) {
                 Ok(s) => at_marker.push(s),
                 Err(e) => {
-                    harness_fail(rep, "state unreadable at a transition boundary", e);
+                    rep.finding(Finding {
+                        clause: "state-file-readable".into(),
+                        signature: "a completed state transition leaves a state file that cannot be read".into(),
+                        detail: format!("after {} completed transitions (directory started with a crash-leftover temp file): {e}", at_marker.len()),
+                        case: J::obj().with("transition", J::i(at_marker.len() as u64)),
+                    });
                     return;
                 }
             }
@@ -1618,8 +1646,7 @@ fn statefile_traced(rep: &mut Report) {
     }
     rep.set_extra("statefile_states_at_markers", J::arr(at_marker.iter().map(|s| J::s(s.clone()))));
     // pass 2: every crash point
-    let mut files: BTreeMap<String, Vec<u8>> = BTreeMap::new();
-    files.insert(format!("{dir_s}/state.json"), fresh.as_bytes().to_vec());
+    let mut files: BTreeMap<String, Vec<u8>> = initial.clone();
     let mut step = 0usize; // number of markers passed
     let mut check = |rep: &mut Report, files: &BTreeMap<String, Vec<u8>>, step: usize, what: String| {
         rep.add("evaluations", 1);
@@ -1641,11 +1668,11 @@ fn statefile_traced(rep: &mut Report) {
             FsOp::Marker => {
                 step += 1;
             }
-            FsOp::Write(p, data) => {
+            FsOp::Write(p, at, data) => {
                 check(rep, &files, step, format!("before call {i} (write of {} bytes to {})", data.len(), p.replace(&dir_s, "<DIR>")));
                 for cut in 1..data.len() {
                     let mut torn = files.clone();
-                    torn.entry(p.clone()).or_default().extend_from_slice(&data[..cut]);
+                    write_at(torn.entry(p.clone()).or_default(), *at, &data[..cut]);
                     check(rep, &torn, step, format!("after {cut} of {} bytes of call {i} (write to {})", data.len(), p.replace(&dir_s, "<DIR>")));
                 }
             }
